@@ -198,7 +198,12 @@ func init() {
 		}{
 			{"<p>\n<% # note %>\n<%= undefinedThing %>\n", 3, "exec"}, {"<%\n# first\n# second\nundefinedThing.Foo()\n%>", 4, "exec"}, {"a\n<%\n# c\nlet = 3 %>", 4, "parse"},
 			{"<% # one\n# two\n let z = 1 / 0 %>", 3, "exec"}, {"<%# tag comment %>\n<% # line %>\n<%= xs[99] %>", 3, "exec"}, {"<% # a\n # b\n\n # c\n fail1() %>", 5, "exec"},
-			{"<%= 1 %><% # x %>\n\n<%= (1 + %>", 3, "parse"}, {"<% let q = 1 # set q\n q = 2 # again\n nope = 3 %>", 3, "exec"},
+			{"<%= 1 %><% # x %>\n\n<%= (1 + %>", 3, "parse"},
+			// silent statements that span several lines and fail in their HEADER (condition, iterable, a wrapped
+			// argument list, a failing block helper): the line is the one the statement begins on
+			{"a\n<% if (1 + \"a\") { %>\nx\n<% } %>\nb", 2, "exec"}, {"<% for (x) in n { %>\nx\n\n<% } %>", 1, "exec"}, {"\n<% rec1(\n \"notint\"\n) %>", 2, "exec"},
+			{"<% if (false) { %>\nx\n<% } else if (xs[99]) { %>\ny\n<% } %>", 1, "exec"}, {"t\n<% fail1() { %>\nbody\n<% } %>", 2, "exec"}, {"<% if (n + \"a\") { %>\n\n\n<% } else { %>\n<% } %>", 1, "exec"},
+			{"<% let q = if (1 + \"a\") {\n 1 } %>", 1, "exec"}, {"<%\n if (n == 3) {\n  nope = 1\n }\n%>", 3, "exec"}, {"<% let q = 1 # set q\n q = 2 # again\n nope = 3 %>", 3, "exec"},
 		} {
 			for wi, w := range c15wraps[:3] {
 				if t.kind == "parse" && wi > 0 {
